@@ -195,9 +195,13 @@ SKELETON = {
     "top/b/e/f.py": "",
     "top/b/g/h.py": "",
     "top/x.py": "",
+    # packages that contain a module carrying the package's own name (config/config.py)
+    "top/b/b.py": "",
+    "top/b/e/e.py": "",
+    "top/top.py": "",
 }
 SK_MODULES = ["top", "top.__init__", "top.a", "top.b", "top.b.__init__", "top.b.c", "top.b.e", "top.b.e.__init__",
-              "top.b.e.f", "top.b.g", "top.b.g.h", "top.x"]
+              "top.b.e.f", "top.b.g", "top.b.g.h", "top.x", "top.b.b", "top.b.e.e", "top.top"]
 
 
 def package_of(file_mod):
